@@ -34,7 +34,8 @@ CONSTANTS Win, InitW, InitPCT, Now, MaxBlocks, MaxHeight, MaxSteps, MaxRestart, 
           Byz,          \* Byzantine validators (no node of their own: they forge anywhere, equivocate, and announce any of their blocks)
           MaxByz,       \* bound on the number of Byzantine blocks
           SlotSpan,     \* a forger uses one of the next SlotSpan slots (N: its next slot; 2N: it may skip a round)
-          SkipDiscard   \* TRUE: announcements the receiver would discard are not generated (deep simulation runs)
+          SkipDiscard,  \* TRUE: announcements the receiver would discard are not generated (deep simulation runs)
+          MaxInvalid    \* bound on the number of blocks a Byzantine validator offers that break a BFT rule of verifyBlock (0: none)
 
 VARIABLES blocks, tip, fin, recv, banned, maxGen, lastSlot, script
 vars == <<blocks, tip, fin, recv, banned, maxGen, lastSlot, script>>
@@ -191,6 +192,35 @@ ByzForge(v) ==
                /\ script' = Append(script, [op |-> "byzforge", node |-> v, parent |-> p.id, blk |-> b.id, slot |-> s, mhg |-> mhg, branch |-> "none"])
 ByzDeliver(v, n) == \E b \in {x \in blocks : x.gen = v} : Receive(v, b, n)
 
+\* C01, the two BFT rules of verifyBlock in the negative direction: a Byzantine validator offers node n a block that
+\* extends n's tip in one of its own slots and is valid except that either its maxHeightPrevoted is off by one from the
+\* value of the branch ("mhp+1" / "mhp-1"; the header does not contradict the chain with either value) or the header
+\* contradicts the validator's latest header inside the window of the branch ("contra": it claims a maxHeightGenerated
+\* below a block it visibly generated, so that its prevotes and precommits would be counted a second time).  Such a
+\* block never becomes part of the tree: the node stays where it is (who is banned afterwards is not the model's concern).
+\* The step is an ordinary one in the middle of behaviours: whatever it leaves behind is observed by the steps that follow.
+\* bounds: at most one block with a wrong maxHeightPrevoted (possible almost everywhere, so random walks would spend the
+\* whole budget on it at their start) and at most MaxInvalid contradicting ones (possible only once a block of the
+\* Byzantine validator is inside the window of the receiver's chain)
+NInvalid(kinds) == Cardinality({i \in 1..Len(script) : script[i].op = "byzinvalid" /\ script[i].kind \in kinds})
+ByzForgeInvalid(v, n) ==
+  /\ Len(script) < MaxSteps /\ MaxInvalid > 0
+  /\ LET p == Blk(tip[n]) IN
+     \E s \in (p.slot + 1)..Min2(Now, p.slot + SlotSpan) :
+       /\ GenAt(p.votes, p.h + 1, s) = v
+       /\ \E kind \in {"mhp+1", "mhp-1", "contra"} :
+          \E mhg \in {0, p.h + 1} \cup {x.h : x \in {y \in blocks : y.gen = v}} :
+            LET good == p.votes.mhpv
+                mhp == IF kind = "mhp+1" THEN good + 1 ELSE IF kind = "mhp-1" THEN good - 1 ELSE good
+                H(m) == [h |-> p.h + 1, gen |-> v, mhg |-> mhg, mhp |-> m, acH |-> 0, acNonEmpty |-> FALSE]
+            IN /\ mhp >= 0
+               /\ IF kind = "contra" THEN NInvalid({"contra"}) < MaxInvalid /\ ContraChain(p.votes, H(good))
+                  ELSE /\ NInvalid({"mhp+1", "mhp-1"}) < 1 /\ p.h >= 2
+                       /\ ~ContraChain(p.votes, H(good)) /\ ~ContraChain(p.votes, H(mhp))     \* exactly one rule is broken
+               /\ UNCHANGED <<blocks, tip, fin, recv, banned, maxGen, lastSlot>>
+               /\ script' = Append(script, [op |-> "byzinvalid", node |-> n, from |-> v, slot |-> s, mhg |-> mhg, mhp |-> mhp, kind |-> kind,
+                                            byz |-> TRUE, branch |-> "invalid", sync |-> "none", obs |-> Obs(n, tip', fin', banned')])
+
 (* the node is re-created on its database: receive time and ban list are in memory only *)
 NRestart == Cardinality({i \in 1..Len(script) : script[i].op = "restart"})
 Restart(n) ==
@@ -202,6 +232,7 @@ Restart(n) ==
 
 Next == \/ \E n \in Nodes : Forge(n) \/ Restart(n) \/ (\E p \in Nodes : Deliver(p, n)) \/ (\E v \in Byz : ByzDeliver(v, n))
         \/ \E v \in Byz : ByzForge(v)
+        \/ \E v \in Byz : \E n \in Nodes : ByzForgeInvalid(v, n)
 Spec == Init /\ [][Next]_vars
 
 (* ------------------------------ properties ------------------------------ *)
@@ -233,8 +264,10 @@ DumpDoubleForgeInTieWindow ==
   (\E i \in 1..Len(script) : script[i].op = "deliver" /\ script[i].branch = "doubleforging" /\ script[i].tiewin)
     => PrintT(<<"DUMP", ToJson([script |-> script])>>)
 Interesting == \E i \in 1..Len(script) : script[i].branch \in {"tiebreak", "differentchain", "doubleforging"}
+\* a block that breaks a BFT rule was offered and steps follow it (rare in a uniform sample of the exhaustive configurations)
+InvalidInTheMiddle == \E i \in 1..(Len(script) - 1) : script[i].op = "byzinvalid"
 DumpInv ==
   (DumpEvery > 0 /\ (Len(script) = MaxSteps \/ ~ENABLED Next)
-     /\ RandomElement(1..(IF HasFinality THEN FinDumpEvery ELSE IF Interesting THEN DumpEvery ELSE 20 * DumpEvery)) = 1)
+     /\ RandomElement(1..(IF HasFinality \/ InvalidInTheMiddle THEN FinDumpEvery ELSE IF Interesting THEN DumpEvery ELSE 20 * DumpEvery)) = 1)
     => PrintT(<<"DUMP", ToJson([script |-> script])>>)
 =============================================================================
